@@ -71,9 +71,9 @@ theorem ac_tuple (ts : TyList) (d : Nat) (rest : List Tok) :
       simp [afterClose]
     | cons t' ts' =>
       simp only [renderTuple, List.append_assoc, List.cons_append, List.nil_append]
-      rw [ac_render t d (Tok.comma :: (renderTuple (TyList.cons t' ts') ++ rest))]
+      rw [ac_render t d (Tok.comma :: (renderArgs (TyList.cons t' ts') ++ rest))]
       simp only [afterClose]
-      exact ac_tuple (TyList.cons t' ts') d rest
+      exact ac_args (TyList.cons t' ts') d rest
 
 theorem ac_ret (r : Ty) (d : Nat) (rest : List Tok) :
     afterClose (d + 1) (renderRet r ++ rest) = afterClose (d + 1) rest := by
